@@ -1,9 +1,556 @@
 package fakeredis
 
-// Propagation module (placeholder until built): turns applied commands into the replication
-// stream a master would emit.  See DESIGN.md §2.1.
+// Propagation module: turns the commands executed on the double into the replication stream a
+// Redis master would emit for them (DESIGN.md §2.1).
+//
+//	p := srv.EnablePropagation()                    // before traffic
+//	p.Bytes() / p.Since(off) / p.End() / p.Base()   // the stream, absolute offsets
+//	p.OnAppend(func(off int64, b []byte){ src.Append(b) })   // callback per appended chunk (e.g. into the source role)
+//	rd := p.Reader(off)                             // blocking io.Reader over the live stream (Hold/Limit/Close)
+//	p.Log()                                         // parsed log of what was propagated (and what was omitted)
+//
+// Rules (replication.c / multi.c / the commands' own rewrites):
+//   - only data-modifying commands that succeeded and changed something are propagated
+//     (cx.noop = true → omitted; recorded in the log as PropNoop without bytes);
+//   - what is propagated is cx.rewrite when the command set one (SET … PX → SET … PXAT, EXPIRE →
+//     PEXPIREAT, RESTORE ttl → RESTORE abs ABSTTL, XADD * → XADD <id>, expired-at-once → DEL),
+//     else the command as received.  DEL/UNLINK are propagated verbatim (delGenericCommand never
+//     rewrites its argument vector, whatever subset of the keys existed);
+//   - `SELECT <db>` is emitted whenever the DB of the executing client differs from the DB of
+//     the last propagated command (server.slaveseldb; initially unknown, so the stream starts
+//     with a SELECT);
+//   - the writes of one EXEC are wrapped in MULTI … EXEC.  A transaction all of whose commands
+//     were no-ops, reads or errors propagates nothing.  Redis ≥ 7 (propagatePendingCommands) does
+//     not wrap a transaction that propagates exactly one command ("the single command is
+//     atomic"); Redis < 7 (execCommandPropagateMulti) wraps as soon as one command is propagated.
+//     The double follows Options.Version unless PropagationOptions.WrapSingle overrides it.
+//     The SELECT a transaction needs is emitted before its MULTI (as propagate() does with the
+//     first command's dbid); a SELECT executed inside the transaction shows up inside the block.
+//
+// Not modelled: lazy-expiry DELs a master emits when a command finds a key expired (checks keep
+// TTLs far in the future), active expiry, eviction, script effects replication.
 
-type propagator struct{}
+import (
+	"bytes"
+	"errors"
+	"io"
+	"strconv"
+	"strings"
+	"sync"
+)
 
-func (p *propagator) onApplied(s *Server, c *conn, cmd string, args [][]byte, txn int64, pos int, cx *ctx) {
+type PropKind int
+
+const (
+	PropWrite  PropKind = iota // a data command (possibly rewritten)
+	PropSelect                 // SELECT <db> emitted by the master
+	PropMulti                  // MULTI
+	PropExec                   // EXEC
+	PropNoop                   // an executed write that changed nothing: omitted (no bytes)
+)
+
+func (k PropKind) String() string {
+	return [...]string{"write", "select", "multi", "exec", "noop"}[k]
+}
+
+// Rewrite kinds reported in PropCmd.Rewrite.
+const (
+	RwPXAT      = "set-pxat"         // SET/SETEX/PSETEX with a relative or second-resolution expiry → SET k v PXAT ms
+	RwSetPlain  = "set-flags"        // SET … NX|XX|GET → SET k v [KEEPTTL]
+	RwPExpireAt = "pexpireat"        // EXPIRE/PEXPIRE/EXPIREAT → PEXPIREAT ms
+	RwAbsTTL    = "restore-absttl"   // RESTORE k ttl … → RESTORE k abs … ABSTTL
+	RwXaddID    = "xadd-id"          // XADD k * … → XADD k <ms-seq> …
+	RwDelExpire = "del-expired"      // a command that makes the key expire at once → DEL k
+	RwOther     = "other"
+)
+
+// PropCmd is one entry of the propagation log.
+type PropCmd struct {
+	Idx   int
+	Kind  PropKind
+	Start int64    // absolute offset of the first byte
+	End   int64    // absolute offset just past the last byte (== Start for PropNoop)
+	DB    int      // DB in force for the command
+	Args  [][]byte // as emitted, command name first (nil for PropNoop)
+	// the command as the client sent it (PropWrite / PropNoop)
+	OrigCmd  string
+	OrigArgs [][]byte
+	Rewrite  string // "" = verbatim, else one of the Rw* kinds
+	Conn     int64  // connection that executed it
+	ReqSeq   int64  // request that made it take effect (the EXEC for transaction members)
+	Txn      int64  // source transaction (Seq of the EXEC) or 0
+	Pos      int    // position inside the source transaction
+	Unit     int    // propagation unit: a bare command or one MULTI … EXEC block (SELECTs belong to the unit they precede); -1 for PropNoop
+	Wrapped  bool   // emitted inside a MULTI … EXEC block
+}
+
+// Name returns the emitted command name in upper case ("" for a no-op entry).
+func (c *PropCmd) Name() string {
+	if len(c.Args) == 0 {
+		return ""
+	}
+	return strings.ToUpper(string(c.Args[0]))
+}
+
+// PropagationOptions configure EnablePropagation.
+type PropagationOptions struct {
+	// Base is the absolute offset of the first stream byte (a master's repl offset before it).
+	Base int64
+	// WrapSingle: 0 = follow Options.Version (wrap single-command transactions iff major < 7),
+	// +1 = always wrap a transaction that propagates at least one command, -1 = never wrap a
+	// transaction that propagates exactly one command.
+	WrapSingle int
+}
+
+type propOp struct {
+	db       int
+	cmd      string
+	args     [][]byte
+	out      [][]byte
+	rewrite  string
+	conn     int64
+	reqSeq   int64
+	txn      int64
+	pos      int
+}
+
+// Propagation is the handle returned by EnablePropagation.
+type Propagation struct {
+	srv        *Server
+	wrapSingle bool
+
+	mu      sync.Mutex
+	base    int64
+	buf     []byte
+	log     []PropCmd
+	lastDB  int
+	units   int
+	wake    chan struct{}
+	closed  bool
+	onApp   []func(off int64, b []byte)
+	stats   map[string]int64
+
+	// transaction being executed (touched only with the server lock held)
+	inTxn   bool
+	txnSeq  int64
+	pending []propOp
+}
+
+// propagator is the name server.go knows the role by.
+type propagator = Propagation
+
+// EnablePropagation gives the server the propagation role.  Call before the traffic whose
+// stream is wanted; commands executed earlier are not part of the stream.
+func (s *Server) EnablePropagation(opts ...PropagationOptions) *Propagation {
+	var o PropagationOptions
+	if len(opts) > 0 {
+		o = opts[0]
+	}
+	p := &Propagation{srv: s, base: o.Base, lastDB: -1, wake: make(chan struct{}), stats: map[string]int64{}}
+	switch {
+	case o.WrapSingle > 0:
+		p.wrapSingle = true
+	case o.WrapSingle < 0:
+		p.wrapSingle = false
+	default:
+		p.wrapSingle = majorVersion(s.opt.Version) < 7
+	}
+	s.mu.Lock()
+	s.prop = p
+	s.mu.Unlock()
+	return p
+}
+
+// Propagation returns the propagation role (nil when not enabled).
+func (s *Server) Propagation() *Propagation {
+	s.mu.Lock()
+	defer s.mu.Unlock()
+	return s.prop
+}
+
+func majorVersion(v string) int {
+	if i := strings.IndexByte(v, '.'); i >= 0 {
+		v = v[:i]
+	}
+	n, err := strconv.Atoi(v)
+	if err != nil {
+		return 7
+	}
+	return n
+}
+
+// WrapsSingle reports whether a transaction that propagates exactly one command is wrapped.
+func (p *Propagation) WrapsSingle() bool { return p.wrapSingle }
+
+// ---------------------------------------------------------------------------------------------
+// hooks called by server.go with the server lock held
+
+// txnBegin / txnEnd bracket the EXEC loop.
+func (p *Propagation) txnBegin(c *conn, execSeq int64) {
+	p.inTxn, p.txnSeq, p.pending = true, execSeq, p.pending[:0]
+}
+
+func (p *Propagation) txnEnd(c *conn) {
+	ops := p.pending
+	p.inTxn, p.pending = false, nil
+	if len(ops) == 0 {
+		return
+	}
+	p.emit(ops, len(ops) > 1 || p.wrapSingle)
+}
+
+// onApplied is called for every data-modifying command that executed without an error reply.
+func (p *Propagation) onApplied(s *Server, c *conn, cmd string, args [][]byte, txn int64, pos int, cx *ctx) {
+	reqSeq := s.seq
+	if cx.noop {
+		p.mu.Lock()
+		p.log = append(p.log, PropCmd{Idx: len(p.log), Kind: PropNoop, Start: p.base + int64(len(p.buf)), End: p.base + int64(len(p.buf)),
+			DB: cx.db, OrigCmd: cmd, OrigArgs: args, Conn: c.id, ReqSeq: reqSeq, Txn: txn, Pos: pos, Unit: -1})
+		p.stats["noop_omitted"]++
+		p.mu.Unlock()
+		return
+	}
+	var outs [][][]byte
+	switch {
+	case len(cx.rewrites) > 0:
+		outs = cx.rewrites
+	case cx.rewrite != nil && !((cmd == "DEL" || cmd == "UNLINK") && up(cx.rewrite[0]) == "DEL"):
+		outs = [][][]byte{cx.rewrite}
+	default:
+		outs = [][][]byte{append([][]byte{[]byte(cmd)}, args...)}
+	}
+	ops := make([]propOp, 0, len(outs))
+	for _, o := range outs {
+		ops = append(ops, propOp{db: cx.db, cmd: cmd, args: args, out: o, rewrite: rewriteKind(cmd, args, o), conn: c.id, reqSeq: reqSeq, txn: txn, pos: pos})
+	}
+	if p.inTxn && txn != 0 {
+		p.pending = append(p.pending, ops...)
+		return
+	}
+	// a command outside MULTI that propagates several commands is wrapped (also_propagate)
+	p.emit(ops, len(ops) > 1)
+}
+
+// rewriteKind classifies what the master did to the command ("" = propagated verbatim).
+func rewriteKind(cmd string, args [][]byte, out [][]byte) string {
+	if len(out) == len(args)+1 && up(out[0]) == cmd {
+		same := true
+		for i := range args {
+			if !bytes.Equal(args[i], out[i+1]) {
+				same = false
+				break
+			}
+		}
+		if same {
+			return ""
+		}
+	}
+	name := up(out[0])
+	has := func(v [][]byte, w string) bool {
+		for _, a := range v {
+			if up(a) == w {
+				return true
+			}
+		}
+		return false
+	}
+	switch {
+	case name == "DEL" && cmd != "DEL" && cmd != "UNLINK":
+		return RwDelExpire
+	case name == "PEXPIREAT":
+		return RwPExpireAt
+	case name == "SET" && has(out[3:], "PXAT"):
+		return RwPXAT
+	case name == "SET" && cmd == "SET":
+		return RwSetPlain
+	case name == "RESTORE" && has(out[4:], "ABSTTL"):
+		return RwAbsTTL
+	case name == "XADD":
+		return RwXaddID
+	}
+	return RwOther
+}
+
+func encodeCmd(b *bytes.Buffer, args [][]byte) {
+	b.WriteByte('*')
+	b.WriteString(strconv.Itoa(len(args)))
+	b.WriteString("\r\n")
+	for _, a := range args {
+		b.WriteByte('$')
+		b.WriteString(strconv.Itoa(len(a)))
+		b.WriteString("\r\n")
+		b.Write(a)
+		b.WriteString("\r\n")
+	}
+}
+
+// emit appends one propagation unit.
+func (p *Propagation) emit(ops []propOp, wrap bool) {
+	var out bytes.Buffer
+	p.mu.Lock()
+	start := p.base + int64(len(p.buf))
+	unit := p.units
+	p.units++
+	add := func(kind PropKind, db int, args [][]byte, op *propOp) {
+		s0 := start + int64(out.Len())
+		encodeCmd(&out, args)
+		e := PropCmd{Idx: len(p.log), Kind: kind, Start: s0, End: start + int64(out.Len()), DB: db, Args: args, Unit: unit, Wrapped: wrap,
+			Conn: op.conn, ReqSeq: op.reqSeq, Txn: op.txn, Pos: op.pos}
+		if kind == PropWrite {
+			e.OrigCmd, e.OrigArgs, e.Rewrite = op.cmd, op.args, op.rewrite
+		}
+		p.log = append(p.log, e)
+	}
+	sel := func(db int, op *propOp) {
+		if db != p.lastDB {
+			add(PropSelect, db, [][]byte{[]byte("SELECT"), []byte(strconv.Itoa(db))}, op)
+			p.lastDB = db
+			p.stats["select_emitted"]++
+		}
+	}
+	if wrap {
+		sel(ops[0].db, &ops[0])
+		add(PropMulti, ops[0].db, [][]byte{[]byte("MULTI")}, &ops[0])
+		p.stats["multi_emitted"]++
+	} else if ops[0].txn != 0 {
+		p.stats["txn_unwrapped_single"]++
+	}
+	for i := range ops {
+		op := &ops[i]
+		sel(op.db, op)
+		add(PropWrite, op.db, op.out, op)
+		p.stats["write_propagated"]++
+		if op.rewrite != "" {
+			p.stats["rewrite|"+op.rewrite]++
+		}
+	}
+	if wrap {
+		add(PropExec, p.lastDB, [][]byte{[]byte("EXEC")}, &ops[len(ops)-1])
+	}
+	chunk := out.Bytes()
+	p.buf = append(p.buf, chunk...)
+	close(p.wake)
+	p.wake = make(chan struct{})
+	cbs := p.onApp
+	p.mu.Unlock()
+	for _, fn := range cbs {
+		fn(start, chunk)
+	}
+}
+
+// ---------------------------------------------------------------------------------------------
+// output API
+
+// Base returns the absolute offset of the first stream byte.
+func (p *Propagation) Base() int64 {
+	p.mu.Lock()
+	defer p.mu.Unlock()
+	return p.base
+}
+
+// End returns the absolute offset just past the last byte produced so far.
+func (p *Propagation) End() int64 {
+	p.mu.Lock()
+	defer p.mu.Unlock()
+	return p.base + int64(len(p.buf))
+}
+
+// Bytes returns a copy of the whole stream (offsets Base() … End()).
+func (p *Propagation) Bytes() []byte {
+	p.mu.Lock()
+	defer p.mu.Unlock()
+	return append([]byte{}, p.buf...)
+}
+
+// Since returns a copy of the bytes from absolute offset off (clamped to [Base, End]).
+func (p *Propagation) Since(off int64) []byte {
+	p.mu.Lock()
+	defer p.mu.Unlock()
+	i := off - p.base
+	if i < 0 {
+		i = 0
+	}
+	if i > int64(len(p.buf)) {
+		i = int64(len(p.buf))
+	}
+	return append([]byte{}, p.buf[i:]...)
+}
+
+// OnAppend registers fn, called (with the server lock held, in stream order) for every chunk
+// appended: off is the absolute offset of b[0].  A chunk is one whole propagation unit.
+func (p *Propagation) OnAppend(fn func(off int64, b []byte)) {
+	p.mu.Lock()
+	p.onApp = append(p.onApp, fn)
+	p.mu.Unlock()
+}
+
+// Log returns a copy of the propagation log.
+func (p *Propagation) Log() []PropCmd {
+	p.mu.Lock()
+	defer p.mu.Unlock()
+	return append([]PropCmd{}, p.log...)
+}
+
+// LogSince returns the log entries with Idx >= idx.
+func (p *Propagation) LogSince(idx int) []PropCmd {
+	p.mu.Lock()
+	defer p.mu.Unlock()
+	if idx < 0 {
+		idx = 0
+	}
+	if idx > len(p.log) {
+		idx = len(p.log)
+	}
+	return append([]PropCmd{}, p.log[idx:]...)
+}
+
+// Stats returns counters: write_propagated, noop_omitted, select_emitted, multi_emitted,
+// txn_unwrapped_single, rewrite|<kind>.
+func (p *Propagation) Stats() map[string]int64 {
+	p.mu.Lock()
+	defer p.mu.Unlock()
+	m := make(map[string]int64, len(p.stats))
+	for k, v := range p.stats {
+		m[k] = v
+	}
+	return m
+}
+
+// Wait blocks until End() > off, the propagation is closed, or stop is closed; it returns End().
+func (p *Propagation) Wait(off int64, stop <-chan struct{}) int64 {
+	for {
+		p.mu.Lock()
+		end := p.base + int64(len(p.buf))
+		w, closed := p.wake, p.closed
+		p.mu.Unlock()
+		if end > off || closed {
+			return end
+		}
+		select {
+		case <-w:
+		case <-stop:
+			return end
+		}
+	}
+}
+
+// Close ends the stream: blocked readers return io.EOF after the bytes produced so far.
+func (p *Propagation) Close() {
+	p.mu.Lock()
+	if !p.closed {
+		p.closed = true
+		close(p.wake)
+		p.wake = make(chan struct{})
+	}
+	p.mu.Unlock()
+}
+
+// ErrPropReaderClosed is returned by a PropReader closed with Close.
+var ErrPropReaderClosed = errors.New("fakeredis: propagation reader closed")
+
+// PropReader is a blocking io.Reader over the live stream.
+type PropReader struct {
+	p      *Propagation
+	pos    int64 // absolute offset of the next byte (guarded by p.mu)
+	limit  int64 // never hand out bytes at or beyond this absolute offset; -1 = none
+	closed bool
+	handed int64
+}
+
+// Reader returns a reader positioned at absolute offset from (clamped to [Base, End]).  Read
+// blocks while no byte is available and returns io.EOF once the propagation was closed and
+// everything was read.
+func (p *Propagation) Reader(from int64) *PropReader {
+	p.mu.Lock()
+	defer p.mu.Unlock()
+	if from < p.base {
+		from = p.base
+	}
+	if end := p.base + int64(len(p.buf)); from > end {
+		from = end
+	}
+	return &PropReader{p: p, pos: from, limit: -1}
+}
+
+func (r *PropReader) Read(b []byte) (int, error) {
+	if len(b) == 0 {
+		return 0, nil
+	}
+	p := r.p
+	for {
+		p.mu.Lock()
+		if r.closed {
+			p.mu.Unlock()
+			return 0, ErrPropReaderClosed
+		}
+		end := p.base + int64(len(p.buf))
+		hi := end
+		if r.limit >= 0 && r.limit < hi {
+			hi = r.limit
+		}
+		if hi > r.pos {
+			n := copy(b, p.buf[r.pos-p.base:hi-p.base])
+			r.pos += int64(n)
+			r.handed += int64(n)
+			p.mu.Unlock()
+			return n, nil
+		}
+		if p.closed && r.pos >= end {
+			p.mu.Unlock()
+			return 0, io.EOF
+		}
+		w := p.wake
+		p.mu.Unlock()
+		<-w
+	}
+}
+
+func (r *PropReader) wakeAllLocked() {
+	close(r.p.wake)
+	r.p.wake = make(chan struct{})
+}
+
+// Pos returns the absolute offset of the next byte the reader will hand out.
+func (r *PropReader) Pos() int64 {
+	r.p.mu.Lock()
+	defer r.p.mu.Unlock()
+	return r.pos
+}
+
+// Handed returns the number of bytes handed out so far.
+func (r *PropReader) Handed() int64 {
+	r.p.mu.Lock()
+	defer r.p.mu.Unlock()
+	return r.handed
+}
+
+// SetLimit: bytes at absolute offsets >= limit are withheld (replication lag / partition);
+// -1 removes the limit.
+func (r *PropReader) SetLimit(limit int64) {
+	r.p.mu.Lock()
+	r.limit = limit
+	r.wakeAllLocked()
+	r.p.mu.Unlock()
+}
+
+// Hold withholds everything not handed out yet; it returns the position held at.
+func (r *PropReader) Hold() int64 {
+	r.p.mu.Lock()
+	defer r.p.mu.Unlock()
+	r.limit = r.pos
+	return r.pos
+}
+
+// Release removes the limit.
+func (r *PropReader) Release() { r.SetLimit(-1) }
+
+// Close makes pending and later Reads fail.
+func (r *PropReader) Close() error {
+	r.p.mu.Lock()
+	if !r.closed {
+		r.closed = true
+		r.wakeAllLocked()
+	}
+	r.p.mu.Unlock()
+	return nil
 }
